@@ -3,12 +3,12 @@ package main
 // Command generators. One PRNG (seeded from VERIF_SEED) drives every choice.
 
 import (
-	"time"
-	"strconv"
 	"fmt"
 	"math/big"
 	"math/rand"
+	"strconv"
 	"strings"
+	"time"
 )
 
 type Gen struct {
@@ -66,7 +66,7 @@ func bfExtremes(ty string) []string {
 	}
 	return out
 }
-func (g *Gen) chance(p float64) bool   { return g.r.Float64() < p }
+func (g *Gen) chance(p float64) bool { return g.r.Float64() < p }
 
 // random case of a keyword: the command table and option keywords are case-insensitive
 func (g *Gen) kw(s string) string {
@@ -244,7 +244,9 @@ func init() {
 	reg("list", "linsert", func(g *Gen) []string {
 		return []string{g.kw("linsert"), g.key(), g.kw(g.pick("BEFORE", "AFTER")), g.elem(), g.pick("x", "y", "a")}
 	})
-	reg("list", "lrem", func(g *Gen) []string { return []string{g.kw("lrem"), g.key(), g.pick("0", "1", "-1", "2", "-2", "5"), g.elem()} })
+	reg("list", "lrem", func(g *Gen) []string {
+		return []string{g.kw("lrem"), g.key(), g.pick("0", "1", "-1", "2", "-2", "5"), g.elem()}
+	})
 	reg("list", "ltrim", func(g *Gen) []string { return []string{g.kw("ltrim"), g.key(), g.num(), g.num()} })
 	reg("list", "lpos", func(g *Gen) []string {
 		a := []string{g.kw("lpos"), g.key(), g.elem()}
@@ -487,7 +489,9 @@ func init() {
 		}
 		return []string{g.kw("pexpire"), g.key(), g.pick("9300000000000", "31536000000000")}
 	})
-	reg("expire", "ttl", func(g *Gen) []string { return []string{g.kw(g.pick("ttl", "pttl", "expiretime", "pexpiretime")), g.key()} })
+	reg("expire", "ttl", func(g *Gen) []string {
+		return []string{g.kw(g.pick("ttl", "pttl", "expiretime", "pexpiretime")), g.key()}
+	})
 	reg("expire", "persist", func(g *Gen) []string { return []string{g.kw("persist"), g.key()} })
 
 	// ---------- bits ----------
@@ -736,7 +740,6 @@ func (g *Gen) sortMacro(c int) []Op {
 	return ops
 }
 
-
 // ---- INCRBYFLOAT / HINCRBYFLOAT inside the modelled domain: decimals with at most 6 fractional
 // digits and magnitude below 16 per step, sums kept below 30 (beyond that long double arithmetic
 // shows binary noise in the 17th place and the exact-decimal model no longer describes redis) ----
@@ -799,7 +802,6 @@ func (g *Gen) floatMacro(c int, hash bool) []Op {
 	return ops
 }
 
-
 // ---- COPY / RENAME carry a complete, independent value: build a key of a known type, copy or rename
 // it, change ONE side in place (overwrite of an existing field / element / member / byte included),
 // look at both sides ----
@@ -840,7 +842,6 @@ func (g *Gen) copyMacro(c int) []Op {
 	return ops
 }
 
-
 // ---- BITPOS / BITCOUNT on strings whose tail (or head) is all ones or all zeros: the implicit
 // padding rules differ between "no range", "start only" and "start and end" ----
 func (g *Gen) bitposMacro(c int) []Op {
@@ -868,7 +869,6 @@ func (g *Gen) bitposMacro(c int) []Op {
 	ops = append(ops, mkOp(c, "GET", k))
 	return ops
 }
-
 
 // ---- LPOS: a list with repeated elements, then RANK (both directions) x COUNT x MAXLEN combinations
 // whose window is shorter or longer than the list ----
@@ -900,7 +900,7 @@ func (g *Gen) counterBoundary(c int) []Op {
 	k := g.key()
 	max := new(big.Int).Sub(new(big.Int).Lsh(big.NewInt(1), 63), big.NewInt(1))
 	min := new(big.Int).Neg(new(big.Int).Lsh(big.NewInt(1), 63))
-	dist := int64(g.r.Intn(4)) // distance from the boundary before the step
+	dist := int64(g.r.Intn(4))            // distance from the boundary before the step
 	step := dist + int64(g.r.Intn(3)) - 1 // lands one short of, on, or one past the boundary
 	if step < 0 {
 		step = 0
